@@ -216,19 +216,25 @@ def process_attribs_item(prop="C04"):
     proc_of = lambda e: z3.If(z3.Select(e._e.has_array(e._p, "procedure"), e.item), sel(H(e, "procedure"), e.item), 0)
     takes_bind = lambda e: z3.Or(has_bindc(e), proc_of(e) != 0)
     perm0 = lambda e: sel(H(e, "permission"), e.item)
+    # the other attributes go to the procedure of an interface body (it is what gets matched with a dummy argument later), else to the entity itself
+    owner = lambda e: z3.If(proc_of(e) != 0, proc_of(e), e.item)
 
     def req(v):
         a0 = v.heap.alloc0
         d = adict(v)
         lid = z3.Select(v.heap.dict_val(d), key(v))
-        at = sel(H(v, "attribs"), v.item)
+        at = sel(H(v, "attribs"), owner(v))
         nid = v.val("named").id
         return z3.And(v.item != v.self, at > 0, at < a0, nid != at, z3.Implies(z3.Select(v.heap.dict_has(d), key(v)), z3.And(lid > 0, lid < a0, lid != at, lid != nid)),
                       sel(H(v, "attr_dict"), v.self) > 0, proc_of(v) != v.item)
     c.requires("shape", req)
     c.loop(0, invariants=[
         ("permission_is_last_access_attribute_so_far", lambda v: H(v, "permission") == z3.Store(H(E(v), "permission"), E(v).item, LASTACC(v.it.seq, v.k, perm0(E(v))))),
-        ("attribs_grow_by_the_other_attributes", lambda v: lst(v, "attribs", E(v).item, "str") == z3.Concat(lst(E(v), "attribs", E(v).item, "str"), OTHERS(v.it.seq, v.k, takes_bind(E(v))))),
+        ("attribs_grow_by_the_other_attributes", lambda v: lst(v, "attribs", owner(E(v)), "str") == z3.Concat(lst(E(v), "attribs", owner(E(v)), "str"), OTHERS(v.it.seq, v.k, takes_bind(E(v))))),
+        ("recorded_statements_untouched", lambda v: z3.Implies(z3.Select(E(v).heap.dict_has(adict(E(v))), key(E(v))),
+                                                               z3.And(z3.Select(v.heap.dict_has(adict(E(v))), key(E(v))),
+                                                                      z3.Select(v.heap.dict_val(adict(E(v))), key(E(v))) == z3.Select(E(v).heap.dict_val(adict(E(v))), key(E(v))),
+                                                                      v.heap.list_get(SList(z3.Select(E(v).heap.dict_val(adict(E(v))), key(E(v))), "str")) == attrs0(E(v))))),
         ("frame", lambda v: z3.And(v.it.seq == attrs0(E(v)), v.named == E(v).named, H(v, "attribs") == H(E(v), "attribs"), H(v, "procedure") == H(E(v), "procedure"), H(v, "name") == H(E(v), "name"),
                                    H(v, "attr_dict") == H(E(v), "attr_dict"), z3.Select(v._e.has_array(v._p, "bindC"), E(v).item) == z3.Select(E(v)._e.has_array(E(v)._p, "bindC"), E(v).item))),
     ], unfold=lambda v: _pa_unfold(v.it.seq, v.k, perm0(E(v)), takes_bind(E(v))), variant=lambda v: z3.Length(v.it.seq) - v.k)
@@ -238,7 +244,7 @@ def process_attribs_item(prop="C04"):
         a = attrs0(v0)
         n = z3.Length(a)
         return z3.And(H(v1, "permission") == z3.Store(H(v0, "permission"), v0.item, LASTACC(a, n, perm0(v0))),     # this entity: last access statement wins; nobody else changes
-                      lst(v1, "attribs", v0.item, "str") == z3.Concat(lst(v0, "attribs", v0.item, "str"), OTHERS(a, n, takes_bind(v0))))
+                      lst(v1, "attribs", owner(v0), "str") == z3.Concat(lst(v0, "attribs", owner(v0), "str"), OTHERS(a, n, takes_bind(v0))))
     c.ensures("permission_is_the_last_access_statement_naming_the_entity_else_unchanged", post)
     # an identifier can stand for several entities of the scope (a type and its constructor, a generic and a specific procedure, a generic declared in two blocks): what is
     # recorded for the name stays available to the next entity of that name; the name is noted for removal after the loop
